@@ -72,8 +72,10 @@ CLAIMED = {
         "n-th power of the factor; k V prod (x_s/V)^(n_s) computed from constant, volume and amounts expressed in another system - any "
         "order, any number of reactant species, repeated reactants - equals the original times the factor of amount/time (uses that the "
         "constant's dimension is length^(3n-3) time^-1 amount^(1-n), C19); the same for Dint(h_i,h_j,D_i,D_j) S/d (x_j/V_j - x_i/V_i) incl. "
-        "zero diffusivities; equal SI density and volume give equal SI default amounts. Hence the rate of change and each Euler step "
-        "computed in any engine / output units differ by exactly that scale factor. Tied to the code on every run: random systems described "
+        "zero diffusivities; equal SI density and volume give equal SI default amounts; and at the level of whole systems (engine tables, "
+        "grid or graph geometry, state, time step all re-expressed in another system): the rate law of every entry scales by the factor "
+        "of amount/time and the state after any number of Euler steps by the factor of amount - the trajectories are equal in common "
+        "units (non-negative diffusion coefficients, positive cell edges). Tied to the code on every run: random systems described "
         "as dictionaries with a units declaration at every level (script, system, network, space, species, reaction, node, edge), five "
         "re-descriptions each (bare numbers re-scaled to new systems at every level; all bare numbers incl. time step, t_max, interval and "
         "requested times made explicit and all declarations scrambled; one system declared at the top and inherited; script/output units "
